@@ -1,0 +1,49 @@
+//go:build verif
+
+package files
+
+// Verification hooks (build tag "verif"): one event per Reader operation,
+// emitted after the underlying call, with the buffered window if the reader
+// is backed by a BufferedFile.  With the tag off none of this exists.
+
+type VerifReaderEvent struct {
+	Op     string // "seek", "read", "readat", "readat0"
+	Arg    int    // seek: offset; read/readat: length
+	Off    int    // readat0: the offset argument; otherwise Reader.offset
+	Len    int    // bytes returned
+	First  int    // first and last byte returned (-1 if none)
+	Last   int
+	Sum    int // sum of the returned bytes mod 65521
+	Size   int
+	Min    int64 // window (-1 when not a BufferedFile)
+	Max    int64
+	Cur    int64
+	Reader *Reader
+}
+
+var VerifReaderHook func(VerifReaderEvent)
+
+func verifEvent(v *Reader, op string, arg int, off int, result string) {
+	if VerifReaderHook == nil {
+		return
+	}
+	e := VerifReaderEvent{Op: op, Arg: arg, Off: off, Len: len(result), First: -1, Last: -1, Size: v.size, Min: -1, Max: -1, Cur: -1, Reader: v}
+	if len(result) > 0 {
+		e.First = int(result[0])
+		e.Last = int(result[len(result)-1])
+		s := 0
+		for i := 0; i < len(result); i++ {
+			s = (s + int(result[i])) % 65521
+		}
+		e.Sum = s
+	}
+	if bf, ok := v.contents.(*BufferedFile); ok {
+		e.Min, e.Max, e.Cur = bf.minOffset, bf.maxOffset, bf.currentOffset
+	}
+	VerifReaderHook(e)
+}
+
+func verifSeek(v *Reader, offset int)                  { verifEvent(v, "seek", offset, v.offset, "") }
+func verifRead(v *Reader, length int, result string)   { verifEvent(v, "read", length, v.offset, result) }
+func verifReadAt(v *Reader, length int, result string) { verifEvent(v, "readat", length, v.offset, result) }
+func verifReadAt0(v *Reader, length int, offset int)   { verifEvent(v, "readat0", length, offset, "") }
